@@ -266,6 +266,21 @@ MIRI_PLAN = {
 
 
 def extra_substrates(prop, tier, seed, t0):
+    import wasm as W
+    r = _extra_substrates_miri(prop, tier, seed, t0)
+    if r.get("violation"):
+        return r
+    w = W.extra(prop, tier, seed)
+    if w.get("violation"):
+        cov = dict(r.get("coverage", {}))
+        cov.update(w.get("coverage", {}))
+        return {"violation": w["violation"], "coverage": cov}
+    cov = dict(r.get("coverage", {}))
+    cov.update(w.get("coverage", {}))
+    return {"coverage": cov, "assumptions": r.get("assumptions", []) + w.get("assumptions", [])}
+
+
+def _extra_substrates_miri(prop, tier, seed, t0):
     cov = {}
     assumptions = []
     if os.environ.get("VERIF_NO_MIRI"):
